@@ -920,7 +920,7 @@ theorem regime_context_as_modelled :
       "{ if r == nil { return ctx } ctx = context.WithValue(ctx, keyRegime, r) ctx = contextWithValidator(ctx, r.Validator) return ctx }" ∧
     body_RegimeDefFromContext = "{ r, ok := ctx.Value(keyRegime).(*RegimeDef) if !ok { return nil } return r }" ∧
     body_contextWithValidator =
-      "{ if v == nil { return ctx } list := append(Validators(ctx), v) return context.WithValue(ctx, validtorsKey, list) }" ∧
+      "{ if v == nil { return ctx } prev := Validators(ctx) list := append(prev[:len(prev):len(prev)], v) return context.WithValue(ctx, validtorsKey, list) }" ∧
     body_AddonDef_WithContext = "{ if ad == nil { return ctx } ctx = contextWithValidator(ctx, ad.Validator) return ctx }" ∧
     body_Party_validationContext = "{ if r := p.RegimeDef(); r != nil { ctx = r.WithContext(ctx) } return ctx }" ∧
     calls_Party_ValidateWithContext.take 2 = ["validationContext", "ValidateStructWithContext"] ∧
